@@ -9,9 +9,12 @@ CONSTANT Tier
 Window == [kind : {"window"}, F : {300, 600}, M : {0, 1, 2, 3}, script : {1, 2, 3, 4, 5, 6}]
           \cup [kind : {"window"}, F : {600}, M : {1}, script : {7}]
 Retry  == [kind : {"retry"}, D : {0, 150, 400, 1000}, I : {50, 120, 250}, passive : {FALSE, TRUE}, ups : {1, 2}]
-Limit  == [kind : {"limit"}, max : {1, 2}, ups : {1, 2}, via : {"max_connections", "unhealthy_connection_count"}]
-          \cup [kind : {"limit"}, max : {1, 2}, ups : {1}, via : {"partial_dial"}]
-Active == [kind : {"active"}, interval : {60, 150}]
+\* the limit holds whatever policy selects (the clauses L1-L3 do not depend on who is chosen)
+Limit  == [kind : {"limit"}, max : {1, 2}, ups : {1, 2}, via : {"max_connections", "unhealthy_connection_count"},
+           policy : {"first", "round_robin", "least_conn", "random"}]
+          \cup [kind : {"limit"}, max : {1, 2}, ups : {1}, via : {"partial_dial"}, policy : {"first"}]
+\* hport: the active checks go to a separate health port (`port`); the service port keeps accepting throughout
+Active == [kind : {"active"}, interval : {60, 150}, hport : BOOLEAN]
 Grid == Window \cup Retry \cup Limit \cup Active
 QuickGrid == { g \in Grid : (g.kind = "retry" => g.D < 1000 /\ g.I # 250) /\ (g.kind = "window" => (g.F = 300 \/ g.script = 7)) /\ (g.kind = "active" => g.interval = 60) }
 VARIABLE g
